@@ -4,9 +4,9 @@
 id=$1; shift
 props=${@:-C01 C02 C03 C04 C05 C06 C07 C08 C09 C10 C11 C12 C13 C14 C15 C16 C17 C18 C19 C20}
 r=/tmp/seedrepo_$id; b=/tmp/seedbuild_$id; o=/tmp/seedout_$id
-rm -rf $r $b $o; mkdir -p $r $o && git -C /repo archive HEAD | tar -x -C $r && (cd $r && patch -p1 -s < /verif/seeded/$id/patch.diff) || exit 9
+rm -rf $r $b $o $o; mkdir -p $r $o && git -C /repo archive HEAD | tar -x -C $r && (cd $r && patch -p1 -s < /verif/seeded/$id/patch.diff) || exit 9
 for p in $props; do
   out=$(VERIF_REPO=$r VERIF_BUILD=$b VERIF_OUT=$o /verif/check $p ${TIER:-quick} 2>/dev/null | grep -E "^VIOLATION|^KNOWN" | tr '\n' ';')
   echo "seed=$id check=$p ${out:-pass}"
 done
-rm -rf $r $b
+rm -rf $r $b $o
